@@ -1,7 +1,444 @@
 package c18
 
-import "verif.local/engine/driver"
+import (
+	"context"
+	"encoding/json"
+	"fmt"
+	"os"
+	"os/exec"
+	"path/filepath"
+	"regexp"
+	"sort"
+	"strings"
+	"time"
+
+	"verif.local/engine/driver"
+	"verif.local/engine/vos"
+)
+
+// Conformance of the vos shim to the kernel for the save path of this property.
+// An UNINSTRUMENTED driver (the library as it is in the repository, built here
+// with the plain toolchain) replays a few scripted histories under strace:
+//  (a) its sequence of mutating system calls below the config directory must
+//      equal, call for call, the mutating-operation log of the instrumented run;
+//  (b) for every such call k, the driver is killed for real (strace inject,
+//      SIGKILL at entry of the call) and the surviving directory tree must equal
+//      the tree the shim leaves when it freezes the disk before operation k.
+// When strace, ptrace or the toolchain are not available the job only counts
+// "strace_conformance_skipped"; a disagreement is an infrastructure error (the
+// crash verdicts would not be trustworthy), not a property violation.
+
+const traceSet = "execve,mkdir,mkdirat,open,openat,creat,write,pwrite64,writev,fchmod,fchmodat,chmod,rename,renameat,renameat2,unlink,unlinkat,rmdir,link,linkat,symlink,symlinkat,truncate,ftruncate"
+
+const driverSrc = `package main
+
+import (
+	"context"
+	"encoding/json"
+	"os"
+	"runtime"
+
+	"oras.land/oras-go/v2/registry/remote/auth"
+	"oras.land/oras-go/v2/registry/remote/credentials"
+)
+
+type sop struct{ Kind, Addr, U, P, R, A string }
+
+func init() { runtime.LockOSThread() }
+
+func main() {
+	var ops []sop
+	if err := json.Unmarshal([]byte(os.Args[2]), &ops); err != nil {
+		os.Exit(3)
+	}
+	st, err := credentials.NewFileStore(os.Args[1])
+	if err != nil {
+		os.Exit(4)
+	}
+	ctx := context.Background()
+	for _, o := range ops {
+		switch o.Kind {
+		case "put":
+			st.Put(ctx, o.Addr, auth.Credential{Username: o.U, Password: o.P, RefreshToken: o.R, AccessToken: o.A})
+		case "get":
+			st.Get(ctx, o.Addr)
+		case "del":
+			st.Delete(ctx, o.Addr)
+		}
+	}
+}
+`
+
+type script struct {
+	doc  string
+	pair [2]string
+	hist []op
+}
+
+func scripts() []script {
+	put := func(a int, c cred, n string) op { return op{kind: "put", addr: a, c: c, cn: n} }
+	del := func(a int) op { return op{kind: "del", addr: a} }
+	get := func(a int) op { return op{kind: "get", addr: a} }
+	return []script{
+		{"absent-missing-dir", [2]string{"h", "h:5000"}, []op{put(0, credC0, "c0")}},
+		{"absent", [2]string{"h", "h:5000"}, []op{put(0, credC0, "c0"), del(0)}},
+		{"entries-unknown-fields", [2]string{"https://h/v1/", "h"}, []op{put(0, credC1, "c1"), del(1), del(0), del(0)}},
+		{"pretty-0644", [2]string{"h:5000", "h"}, []op{put(0, credC2, "c2"), put(1, credC0, "c0")}},
+		{"legacy", [2]string{"http://h", "h"}, []op{del(0), get(1), put(0, credBad, "colon-username")}},
+	}
+}
+
+type sysop struct {
+	kind  string
+	paths []string
+	name  string // system call name
+	ord   int    // ordinal among the main thread's calls of that name
+}
+
+var tempRe = regexp.MustCompile(`oras_credstore_temp_[0-9*]+`)
+
+func normPath(dir, p string) string {
+	if r, err := filepath.Rel(dir, p); err == nil {
+		p = r
+	}
+	return tempRe.ReplaceAllString(p, "oras_credstore_temp_*")
+}
+
+var quotedRe = regexp.MustCompile(`"((?:[^"\\]|\\.)*)"`)
+var fdRe = regexp.MustCompile(`^\w+\(\d+<([^>]*)>`)
+
+// parseStrace returns the mutating calls on paths below dir, in order, and the line of the
+// call that was being entered when the process was killed ("" when it ended normally).
+func parseStrace(log, dir string) (ops []sysop, killedAt *sysop, err error) {
+	lines := strings.Split(log, "\n")
+	pending := map[string]string{}
+	mainPid := ""
+	counts := map[string]int{}
+	for _, l := range lines {
+		l = strings.TrimSpace(l)
+		if l == "" {
+			continue
+		}
+		sp := strings.IndexByte(l, ' ')
+		if sp < 0 {
+			continue
+		}
+		pid, rest := l[:sp], strings.TrimSpace(l[sp+1:])
+		if strings.HasPrefix(rest, "+++") || strings.HasPrefix(rest, "---") {
+			continue
+		}
+		if strings.HasSuffix(rest, "<unfinished ...>") {
+			pending[pid] = strings.TrimSuffix(rest, "<unfinished ...>")
+			continue
+		}
+		if strings.HasPrefix(rest, "<... ") {
+			i := strings.Index(rest, "resumed>")
+			if i < 0 {
+				continue
+			}
+			rest = pending[pid] + rest[i+len("resumed>"):]
+			delete(pending, pid)
+		}
+		par := strings.IndexByte(rest, '(')
+		if par <= 0 {
+			continue
+		}
+		name := rest[:par]
+		if mainPid == "" {
+			if name != "execve" {
+				return nil, nil, fmt.Errorf("strace log does not start with execve: %s", l)
+			}
+			mainPid = pid
+			continue
+		}
+		if pid == mainPid {
+			counts[name]++
+		}
+		o := sysop{name: name, ord: counts[name]}
+		q := quotedRe.FindAllStringSubmatch(rest, -1)
+		first := func(n int) []string {
+			var out []string
+			for i := 0; i < n && i < len(q); i++ {
+				out = append(out, q[i][1])
+			}
+			return out
+		}
+		switch name {
+		case "mkdir", "mkdirat":
+			o.kind, o.paths = "mkdir", first(1)
+		case "open", "openat", "creat":
+			mut := name == "creat"
+			for _, f := range []string{"O_CREAT", "O_WRONLY", "O_RDWR", "O_TRUNC", "O_APPEND"} {
+				if strings.Contains(rest, f) {
+					mut = true
+				}
+			}
+			if !mut {
+				continue
+			}
+			o.kind, o.paths = "openat", first(1)
+		case "write", "pwrite64", "writev":
+			m := fdRe.FindStringSubmatch(rest)
+			if m == nil {
+				continue
+			}
+			o.kind, o.paths = "write", []string{m[1]}
+		case "fchmod":
+			m := fdRe.FindStringSubmatch(rest)
+			if m == nil {
+				continue
+			}
+			o.kind, o.paths = "fchmod", []string{m[1]}
+		case "ftruncate":
+			m := fdRe.FindStringSubmatch(rest)
+			if m == nil {
+				continue
+			}
+			o.kind, o.paths = "ftruncate", []string{m[1]}
+		case "fchmodat", "chmod":
+			o.kind, o.paths = "chmod", first(1)
+		case "rename", "renameat", "renameat2":
+			o.kind, o.paths = "rename", first(2)
+		case "unlink", "unlinkat", "rmdir":
+			o.kind, o.paths = "unlink", first(1)
+		case "link", "linkat":
+			o.kind, o.paths = "link", first(2)
+		case "symlink", "symlinkat":
+			o.kind, o.paths = "symlink", first(2)
+		case "truncate":
+			o.kind, o.paths = "ftruncate", first(1)
+		default:
+			continue
+		}
+		under := false
+		for _, p := range o.paths {
+			if strings.HasPrefix(p, dir+"/") {
+				under = true
+			}
+		}
+		if !under {
+			continue
+		}
+		if pid != mainPid {
+			return nil, nil, fmt.Errorf("mutating call from a thread other than the main one: %s", l)
+		}
+		for i := range o.paths {
+			o.paths[i] = normPath(dir, o.paths[i])
+		}
+		if strings.HasSuffix(rest, "= ?") {
+			oc := o
+			killedAt = &oc
+			continue
+		}
+		ops = append(ops, o)
+	}
+	if mainPid == "" {
+		return nil, nil, fmt.Errorf("empty strace log")
+	}
+	return ops, killedAt, nil
+}
+
+func (o sysop) String() string { return o.kind + " " + strings.Join(o.paths, " -> ") }
+
+func vosMutLog(p *vos.Plan, dir string) []string {
+	var out []string
+	for _, o := range p.Log {
+		if !o.Mutating {
+			continue
+		}
+		s := o.Kind + " " + normPath(dir, o.Path)
+		if o.Path2 != "" {
+			s += " -> " + normPath(dir, o.Path2)
+		}
+		out = append(out, s)
+	}
+	return out
+}
+
+// tree describes a directory: normalised relative names, permission bits, contents.
+func tree(dir string) string {
+	var out []string
+	filepath.Walk(dir, func(p string, fi os.FileInfo, err error) error {
+		if err != nil || p == dir {
+			return nil
+		}
+		l := normPath(dir, p) + " " + fi.Mode().String()
+		if fi.Mode().IsRegular() {
+			b, _ := os.ReadFile(p)
+			l += fmt.Sprintf(" %q", b)
+		}
+		out = append(out, l)
+		return nil
+	})
+	sort.Strings(out)
+	return strings.Join(out, "\n")
+}
+
+func scriptJSON(s script) string {
+	type sop struct{ Kind, Addr, U, P, R, A string }
+	var ops []sop
+	for _, o := range s.hist {
+		ops = append(ops, sop{o.kind, s.pair[o.addr], o.c.Username, o.c.Password, o.c.RefreshToken, o.c.AccessToken})
+	}
+	b, _ := json.Marshal(ops)
+	return string(b)
+}
+
+func runCmd(timeout time.Duration, dir string, env []string, name string, args ...string) (string, error) {
+	ctx, cancel := context.WithTimeout(context.Background(), timeout)
+	defer cancel()
+	cmd := exec.CommandContext(ctx, name, args...)
+	cmd.Dir = dir
+	if env != nil {
+		cmd.Env = env
+	}
+	b, err := cmd.CombinedOutput()
+	return string(b), err
+}
+
+func buildDriver(work string) (string, error) {
+	gobin, err := exec.LookPath("go1.26.8")
+	if err != nil {
+		return "", err
+	}
+	repo := os.Getenv("VERIF_REPO")
+	if repo == "" {
+		repo = "/repo"
+	}
+	repo, _ = filepath.Abs(repo)
+	src := filepath.Join(work, "main.go")
+	if err := os.WriteFile(src, []byte(driverSrc), 0644); err != nil {
+		return "", err
+	}
+	ov, _ := json.Marshal(map[string]any{"Replace": map[string]string{filepath.Join(repo, "internal", "zzverif", "c18drv", "main.go"): src}})
+	ovp := filepath.Join(work, "overlay.json")
+	if err := os.WriteFile(ovp, ov, 0644); err != nil {
+		return "", err
+	}
+	bin := filepath.Join(work, "c18drv")
+	var env []string
+	for _, e := range os.Environ() {
+		if !strings.HasPrefix(e, "GOFLAGS=") && !strings.HasPrefix(e, "GOMAXPROCS=") {
+			env = append(env, e)
+		}
+	}
+	env = append(env, "GOFLAGS=", "GOPROXY=off", "GOSUMDB=off", "GOTOOLCHAIN=local")
+	out, err := runCmd(300*time.Second, repo, env, gobin, "build", "-mod=readonly", "-overlay", ovp, "-o", bin, "./internal/zzverif/c18drv")
+	if err != nil {
+		return "", fmt.Errorf("%v: %s", err, clip(out))
+	}
+	return bin, nil
+}
 
 func straceJob() driver.Job {
-	return driver.Job{Name: "strace-conformance", Run: func(c *driver.Ctx) {}}
+	return driver.Job{Name: "strace-conformance", Run: func(c *driver.Ctx) {
+		skip := func(why string) {
+			c.Count("strace_conformance_skipped", 1)
+			c.Sample("strace conformance skipped: " + why)
+		}
+		strace, err := exec.LookPath("strace")
+		if err != nil {
+			skip("no strace")
+			return
+		}
+		work := scratch()
+		defer os.RemoveAll(work)
+		if out, err := runCmd(20*time.Second, work, nil, strace, "-f", "-o", filepath.Join(work, "probe.log"), "-e", "trace=execve", "/bin/true"); err != nil {
+			skip("ptrace not permitted: " + clip(out))
+			return
+		}
+		bin, err := buildDriver(work)
+		if err != nil {
+			skip("driver build: " + err.Error())
+			return
+		}
+		byName := map[string]*doc{}
+		for _, d := range docs() {
+			byName[d.name] = d
+		}
+		infra := func(format string, a ...any) {
+			c.Infra = append(c.Infra, "STRACE-CONFORMANCE "+fmt.Sprintf(format, a...))
+		}
+		for si, s := range scripts() {
+			d := byName[s.doc]
+			js := scriptJSON(s)
+			var names []string
+			for _, o := range s.hist {
+				names = append(names, o.str(s.pair))
+			}
+			what := fmt.Sprintf("script %d (%s: %s)", si, d.name, strings.Join(names, " ; "))
+			// instrumented run: the shim's log and final tree
+			plan := &vos.Plan{KeepLog: true}
+			vdir, _ := runHistory(d, s.pair, s.hist, plan)
+			vlog := vosMutLog(plan, vdir)
+			vtree := tree(vdir)
+			os.RemoveAll(vdir)
+			// real run under strace
+			rdir, rpath := place(d)
+			logp := filepath.Join(work, fmt.Sprintf("s%d.log", si))
+			if out, err := runCmd(60*time.Second, work, nil, strace, "-f", "-y", "-qq", "-s", "0", "-o", logp, "-e", "trace="+traceSet, bin, rpath, js); err != nil {
+				os.RemoveAll(rdir)
+				infra("%s: driver under strace failed: %v %s", what, err, clip(out))
+				return
+			}
+			lb, _ := os.ReadFile(logp)
+			ops, _, err := parseStrace(string(lb), rdir)
+			rtree := tree(rdir)
+			os.RemoveAll(rdir)
+			if err != nil {
+				infra("%s: %v", what, err)
+				return
+			}
+			var slog []string
+			for _, o := range ops {
+				slog = append(slog, o.String())
+			}
+			c.Evals++
+			c.Traces++
+			c.Count("strace_histories_compared", 1)
+			if strings.Join(slog, "\n") != strings.Join(vlog, "\n") {
+				infra("%s: mutating system calls differ from the shim's log\n--- strace\n%s\n--- vos\n%s", what, strings.Join(slog, "\n"), strings.Join(vlog, "\n"))
+				return
+			}
+			if rtree != vtree {
+				infra("%s: final directory trees differ\n--- real\n%s\n--- vos\n%s", what, rtree, vtree)
+				return
+			}
+			c.Count("strace_mutating_syscalls_matched", int64(len(ops)))
+			if si == 0 {
+				c.Sample(what + "\nstrace = vos log:\n" + strings.Join(slog, "\n"))
+			}
+			// every crash point for real
+			for k := 1; k <= len(ops); k++ {
+				target := ops[k-1]
+				kdir, kpath := place(d)
+				klog := filepath.Join(work, fmt.Sprintf("s%d.k%d.log", si, k))
+				runCmd(60*time.Second, work, nil, strace, "-f", "-y", "-qq", "-s", "0", "-o", klog, "-e", "trace="+traceSet,
+					"-e", fmt.Sprintf("inject=%s:signal=SIGKILL:when=%d", target.name, target.ord), bin, kpath, js)
+				kb, _ := os.ReadFile(klog)
+				kops, killed, err := parseStrace(string(kb), kdir)
+				ktree := tree(kdir)
+				os.RemoveAll(kdir)
+				if err != nil || killed == nil || killed.String() != target.String() || len(kops) != k-1 {
+					got := "<none>"
+					if killed != nil {
+						got = killed.String()
+					}
+					infra("%s: SIGKILL injection at call %d (%s #%d) did not hit the intended call: killed at %s after %d calls (%v)", what, k, target.name, target.ord, got, len(kops), err)
+					return
+				}
+				cp := &vos.Plan{CrashAt: k}
+				fdir, _ := runHistory(d, s.pair, s.hist, cp)
+				ftree := tree(fdir)
+				os.RemoveAll(fdir)
+				c.Evals++
+				c.Traces++
+				c.Count("sigkill_points_compared", 1)
+				if ktree != ftree {
+					infra("%s: tree after a real SIGKILL at entry of call %d (%s) differs from the shim's frozen tree\n--- real\n%s\n--- vos\n%s", what, k, target, ktree, ftree)
+					return
+				}
+			}
+		}
+	}}
 }
